@@ -667,6 +667,7 @@ pub fn run_typed<I: HInp, P: InputPredictor<I> + 'static>(sc: &Scenario, opts: &
         let mut game = Game::new(nplayers, sc.max_pred as usize, true);
         game.own_snapshots = sc.own_snapshots;
         game.no_checksum = sc.peers[p].no_checksum;
+        game.weak_checksum = sc.weak_checksum;
         for op in &sc.ops {
             if let Op::Corrupt { peer, frame } = op {
                 if *peer as usize == p {
